@@ -53,7 +53,7 @@ func reviewJobs(f lib.Flags) []job {
 // ---------------------------------------------------------------------------------------------
 
 // probeStaleEvent finds out whether the code under test ignores a new-head event whose block is above the
-// current chain height (proposed-fixes/C16-stale-new-head-event.diff): 4 blocks, L1 head 8, event for block 6.
+// current chain height (868e51a; before it the pruner acted on the event): 4 blocks, L1 head 8, event for block 6.
 func probeStaleEvent() (clamps bool, note string, err error) {
 	ch := newChain(lib.NewRNG(2), false, lib.DefaultGenOptions())
 	node, d := lib.NewNode(ch.g.Net, false)
